@@ -2,6 +2,7 @@ package rules
 
 import (
 	"fmt"
+	"go/token"
 	"sort"
 	"strings"
 
@@ -189,4 +190,120 @@ func lockReleaseRule(c *Ctx, rule string, fns []*ssa.Function, floor int, floorW
 	c.Extra["mutex_acquisitions:"+rule] = map[string]int{"total": n, "deferred_release": nDeferred}
 	c.Floor(rule, floor, floorWhy)
 	_ = consequence
+}
+
+// c09DecodeLoops: the IPP request parser runs inside Handle; a loop of it that never ends keeps the handler (and its
+// growing attribute lists) alive long after the client has gone. Its loops leave through the decoder's recorded error:
+// (1) that error is sticky (decoderErrorSticky), and (2) every parser loop that hands the decoder on to further
+// in-repo decoding re-examines LastError on every iteration, before descending, and leaves the loop when it is set.
+func c09DecodeLoops(c *Ctx) {
+	p := c.P
+	decoderErrorSticky(c, "decode-loop-ends")
+	di := p.Iface(decRel, "Decoder")
+	if !c.Anchor(di != nil, "decode-loop-ends", "decoder.Decoder interface") {
+		return
+	}
+	isDec := func(v ssa.Value) bool {
+		n := NamedOf(v.Type())
+		return n != nil && n.Obj().Pkg() != nil && RelPkg(n.Obj().Pkg().Path()) == decRel && (n.Obj().Name() == "Decoder" || n.Obj().Name() == "Decode")
+	}
+	n := 0
+	for _, fn := range p.FuncsIn("services/ipp") {
+		for li, l := range Loops(fn) {
+			// calls in the loop that pass the decoder to in-repo code
+			var descents []ssa.CallInstruction
+			reads := 0
+			var checks []*ssa.If
+			for b := range l.Blocks {
+				for _, in := range b.Instrs {
+					call, ok := in.(ssa.CallInstruction)
+					if !ok {
+						continue
+					}
+					cc := call.Common()
+					if cc.IsInvoke() && isDec(cc.Value) {
+						reads++
+						continue
+					}
+					if cal := cc.StaticCallee(); cal != nil && cal.Signature.Recv() != nil && len(cc.Args) > 0 && isDec(cc.Args[0]) {
+						reads++
+						continue
+					}
+					for _, a := range cc.Args {
+						if isDec(a) {
+							descents = append(descents, call)
+							break
+						}
+					}
+				}
+				if len(b.Instrs) == 0 {
+					continue
+				}
+				iff, ok := b.Instrs[len(b.Instrs)-1].(*ssa.If)
+				if !ok {
+					continue
+				}
+				bo, ok := iff.Cond.(*ssa.BinOp)
+				if !ok || !IsNilConst(bo.Y) {
+					continue
+				}
+				lc, ok := bo.X.(*ssa.Call)
+				if !ok {
+					continue
+				}
+				name := ""
+				if lc.Call.IsInvoke() {
+					name = lc.Call.Method.Name()
+				} else if cal := lc.Call.StaticCallee(); cal != nil {
+					name = cal.Name()
+				}
+				if !IsErrorType(lc.Type()) || !(lc.Call.IsInvoke() && isDec(lc.Call.Value) || len(lc.Call.Args) > 0 && isDec(lc.Call.Args[0])) {
+					continue
+				}
+				_ = name
+				// the non-nil arm leaves the loop
+				exitIdx := 0
+				if bo.Op == token.EQL {
+					exitIdx = 1
+				}
+				if !l.Blocks[b.Succs[exitIdx]] || leavesLoop(b.Succs[exitIdx], l) {
+					checks = append(checks, iff)
+				}
+			}
+			if len(descents) == 0 || reads == 0 {
+				continue
+			}
+			sort.Slice(descents, func(i, j int) bool { return descents[i].Pos() < descents[j].Pos() })
+			for _, d := range descents {
+				n++
+				ok := false
+				for _, ch := range checks {
+					if ch.Block().Dominates(d.Block()) {
+						ok = true
+					}
+				}
+				c.Check(ok, "decode-loop-ends", fmt.Sprintf("%s loop#%d hands the decoder to %s", shortFn(fn), li+1, calleeLabel(d)), p.InstrPos(d), "the iteration first looks at the decoder's recorded error and leaves the loop when a read has failed", "this parser loop descends into further decoding without first leaving on the decoder's recorded error: on a truncated request the reads return zero values without consuming anything and the loop keeps appending groups forever – the handler never returns")
+			}
+		}
+	}
+	c.Floor("decode-loop-ends", 4, "two sticky-error stores, message loop -> group.decode, group loop -> value.decode")
+}
+
+// leavesLoop: from block b (inside loop l) every path leaves the loop without returning to its header.
+func leavesLoop(b *ssa.BasicBlock, l *Loop) bool {
+	seen := map[*ssa.BasicBlock]bool{}
+	stack := []*ssa.BasicBlock{b}
+	for len(stack) > 0 {
+		x := stack[len(stack)-1]
+		stack = stack[:len(stack)-1]
+		if x == l.Header {
+			return false
+		}
+		if seen[x] || !l.Blocks[x] {
+			continue
+		}
+		seen[x] = true
+		stack = append(stack, x.Succs...)
+	}
+	return true
 }
